@@ -24,7 +24,8 @@ ID = "C09"
 LEVEL = "exploration"
 BUDGET_S = {"quick": 35.0, "thorough": 540.0}
 RULE = ("a case is a block of instances; an instance = axis kinds (numeric|categorical)^2, 1-6 categories in default, "
-        "custom-permuted or partly-absent order, 1-16 elements (numeric values at category positions, +-1e-6, half "
+        "custom-permuted or partly-absent order, label alphabets plain / prefix-sharing of different lengths / numeric, "
+        "CategoricalROI regions built from list / ndarray / object ndarray incl. narrower-than-data and integer-vs-float, 1-16 elements (numeric values at category positions, +-1e-6, half "
         "positions, NaN), a region of one class (x/y range incl. reversed, rectangle incl. rotated, circle, ellipse incl. "
         "rotated, annulus, polygon: convex / star / comb cutting each category line several times / lattice with "
         "vertices on category lines / closed or open, categorical) whose edges are swept over i, i+-1e-6, i+-0.25, "
@@ -49,6 +50,8 @@ N_BLOCKS = {"quick": 320, "thorough": 9000}
 PER_BLOCK = 25
 TOLF, TOLA, POLY_MUL = 1e-7, 1e-10, 1e-3
 LABELS = ["a", "b", "c", "dd", "e", "ff", "g", "B", "zz"]
+LABELS_PREFIX = ["a", "ab", "abc", "b", "ba", "m1", "m10", "m2", "m20"]
+LABELS_NUMERIC = [1.0, 1.5, 2.0, 2.5, 3.0, 10.0]
 PATHS = ["range_categorical", "range_numeric", "rect_decomposed", "categorical_roi", "polylike_both_categorical",
          "polylike_x_categorical", "polylike_y_categorical", "numeric_numeric"]
 ROI_KINDS = ["xrange", "yrange", "rect", "rect_rotated", "circle", "ellipse", "annulus", "polygon", "categorical"]
@@ -81,7 +84,12 @@ def gen_axis(rng, kind, n, ncat):
             else:
                 vals.append(sweep(rng, ncat)[0])
         return {"kind": "num", "values": vals}
-    pool = rng.sample(LABELS, ncat)
+    # label alphabets: plain; labels of different lengths that share prefixes ('a' / 'ab' / 'abc', 'm1' / 'm10'); numeric labels
+    # (1 / 1.5 / 2 ...) so that a region given by integer labels meets float-valued data
+    alphabet = rng.choice(["plain", "plain", "prefix", "prefix", "numeric"])
+    source = {"plain": LABELS, "prefix": LABELS_PREFIX, "numeric": LABELS_NUMERIC}[alphabet]
+    ncat = min(ncat, len(source))
+    pool = rng.sample(source, ncat)
     order = rng.choice(["default", "default", "custom_permuted", "custom_with_absent_categories", "custom_missing_label"])
     if order == "default":
         labels = [rng.choice(pool) for _ in range(n)]
@@ -98,8 +106,15 @@ def gen_axis(rng, kind, n, ncat):
     else:
         cats = list(pool)
         rng.shuffle(cats)
-        labels = [rng.choice(pool + ["~absent"]) for _ in range(n)]
-    return {"kind": "cat", "labels": labels, "categories": cats, "order": order}
+        # the label that is missing from the categories extends one of the longest categories, so that it differs from a
+        # category only beyond the width of the categories array ('abc' vs 'abc9'; 2.5 vs 2.75)
+        if alphabet == "numeric":
+            missing = [max(pool) + 0.25, min(pool) + 0.125]
+        else:
+            longest = max(pool, key=len)
+            missing = [longest + "9", "~absent"]
+        labels = [rng.choice(pool + missing) for _ in range(n)]
+    return {"kind": "cat", "labels": labels, "categories": cats, "order": order, "alphabet": alphabet}
 
 
 def make_column(d, name, ax):
@@ -295,11 +310,37 @@ def run_instance(ctx, forced_kind=None):
             return
 
     if rk == "categorical":
-        universe = list(xcats) + ["~absent", "zzz"]
-        chosen = rng.sample(universe, rng.randint(0, len(universe)))
-        roi = CategoricalROI(np.array(chosen) if chosen else [])
-        desc = {"k": "categorical", "categories": chosen}
-        meta = {"variant": "empty" if not chosen else "labels", "edges": []}
+        numeric = ax["alphabet"] == "numeric"
+        how = rng.choice(["any", "any", "narrow", "narrow"])
+        if numeric:
+            # integer labels against float-valued data: 1 selects 1.0 and nothing else (not 1.5)
+            universe = sorted(set(int(v) for v in xcats)) + [7]
+            chosen = rng.sample(universe, rng.randint(0, len(universe)))
+            how = "integer_labels"
+        elif how == "narrow":
+            # only the shortest labels: the region's category array is narrower than the data's labels
+            short = sorted(xcats, key=len)
+            chosen = short[:rng.randint(1, max(1, len(short) // 2))]
+        else:
+            universe = list(xcats) + ["~absent", "zzz"]
+            chosen = rng.sample(universe, rng.randint(0, len(universe)))
+        container = rng.choice(["list", "ndarray", "object_ndarray"])
+        if not chosen:
+            arg = []
+        elif container == "list":
+            arg = list(chosen)
+        elif container == "ndarray":
+            arg = np.array(chosen)
+        else:
+            arg = np.array(chosen, dtype=object)
+        roi = CategoricalROI(arg)
+        desc = {"k": "categorical", "categories": chosen, "container": container}
+        meta = {"variant": "empty" if not chosen else how, "edges": []}
+        ctx.count("categorical_roi_container:" + container)
+        if chosen and not numeric and max(len(c) for c in chosen) < max(len(l) for l in ax["labels"]):
+            ctx.count("categorical_roi_narrower_than_data_labels")
+        if numeric and chosen:
+            ctx.count("categorical_roi_integer_labels_on_float_data")
         member = set(chosen)
         inside = np.array([l in member for l in ax["labels"]], dtype=bool)
         band = np.zeros(n, dtype=bool)
@@ -350,6 +391,14 @@ def run_instance(ctx, forced_kind=None):
     for o in (orders["x_order"], orders["y_order"]):
         if o != "numeric":
             ctx.count("category_order:" + o)
+    alphabets = sorted(a_["alphabet"] for a_ in (ax, ay) if a_["kind"] == "cat")
+    for a_ in (ax, ay):
+        if a_["kind"] == "cat":
+            ctx.count("label_alphabet:" + a_["alphabet"])
+            ctx.count("path_alphabet:%s:%s" % (path, a_["alphabet"]))
+            if a_["order"] == "custom_missing_label" and a_["alphabet"] != "numeric" and \
+                    any(len(l) > max(len(c) for c in a_["categories"]) for l in a_["labels"]):
+                ctx.count("axes_with_data_label_wider_than_categories")
     for e in meta["edges"]:
         ctx.count("edge_class:" + e)
     ctx.count("state_class:" + type(state).__name__)
@@ -363,7 +412,7 @@ def run_instance(ctx, forced_kind=None):
     ctx.count("elements_in_boundary_band_excluded", int(band.sum()))
     ctx.count("elements_with_nan_position", int((~np.isfinite(px) | ~np.isfinite(py)).sum()))
     pattern = "".join("b" if b else ("1" if i else "0") for i, b in zip(inside, band))
-    ctx.evaluation([path, cname, xk, yk, orders, meta["variant"], sorted(set(meta["edges"])), ncx, ncy, pattern],
+    ctx.evaluation([path, cname, xk, yk, orders, alphabets, meta["variant"], sorted(set(meta["edges"])), ncx, ncy, pattern],
                    nontrivial=(0 < nin < ncmp))
     bad = (got != inside) & cmp_
     if bad.any():
@@ -416,6 +465,19 @@ def floors(counters, tier):
     for o in ("default", "custom_permuted", "custom_with_absent_categories", "custom_missing_label"):
         if g("category_order:" + o, 0) < 100:
             out.append("fewer than 100 categorical axes with order %s" % o)
+    for a in ("plain", "prefix", "numeric"):
+        if g("label_alphabet:" + a, 0) < 150:
+            out.append("fewer than 150 categorical axes with label alphabet %s" % a)
+        for p in ("range_categorical", "rect_decomposed", "categorical_roi"):
+            if g("path_alphabet:%s:%s" % (p, a), 0) < 25:
+                out.append("fewer than 25 instances on path %s with label alphabet %s" % (p, a))
+    for c in ("list", "ndarray", "object_ndarray"):
+        if g("categorical_roi_container:" + c, 0) < 40:
+            out.append("fewer than 40 CategoricalROI regions built from a %s" % c)
+    for k, need in (("categorical_roi_narrower_than_data_labels", 40), ("categorical_roi_integer_labels_on_float_data", 25),
+                    ("axes_with_data_label_wider_than_categories", 40)):
+        if g(k, 0) < need:
+            out.append("fewer than %d %s" % (need, k))
     for e in ("on_position", "position_pm_1e-6", "half_position", "vertex_on_position"):
         if g("edge_class:" + e, 0) < 100:
             out.append("fewer than 100 region edges of class %s" % e)
